@@ -126,6 +126,8 @@ class ActionsFamily:
             return self.gen_b2b(rng, idx, opts)
         if sub == 'midflight':
             return self.gen_midflight(rng, idx, opts)
+        if sub == 'composite':
+            return self.gen_composite(rng, idx, opts)
         kind, wf = models(rng)
         ops = [{'op': 'start', 'mid': 'm1', 'vars': {'pid': 'p1'}}, {'op': 'quiesce'}, {'op': 'snapshot', 'level': 'rows'}]
         n = rng.randint(4, 10)
@@ -306,6 +308,46 @@ class ActionsFamily:
         sc = {'id': '', 'family': 'actions', 'sched': 'b2b-tail-' + rt['flavor'], 'seed': rng.randrange(1 << 30), 'runtime': rt, 'engine': {'store': 'mem', 'keep_processes': True},
               'models': [json.dumps(wf)], 'responder': {'mode': 'quiescent', 'rules': [{'match': {'uses': IRQ}, 'action': 'next', 'times': 100}]}, 'ops': ops}
         return {'scenarios': [sc], 'meta': {'wf': wf, 'kind': 'linear', 'sub': 'b2b'}, 'digest': digest([wf, ops]), 'nontrivial': True}
+
+    def gen_composite(self, rng, idx, opts):
+        """the client closes a RUNNING composite act (a block / generator with open acts below it, often with a catch of its
+        own and an act after it in the same step); the acts below it are then answered, failed or skipped.  Closing a
+        composite over its open children is the known C03 finding; what is watched here is C05: the closed act stays
+        closed, whatever happens below it, and what follows it is created once"""
+        form = rng.choice(['block', 'block', 'parallel', 'sequence'])
+        inner = [irq('c1', 'k1')] + ([irq('c2', 'k2')] if rng.random() < 0.4 else [])
+        if form == 'block':
+            g1 = {'id': 'g1', 'uses': 'acts.core.block', 'params': {'mode': rng.choice(['sequence', 'parallel']), 'acts': inner}}
+        else:
+            g1 = {'id': 'g1', 'uses': 'acts.core.' + form, 'params': {'in': ['u', 'v'][:rng.randint(1, 2)], 'acts': [{'uses': IRQ, 'key': 'k1'}]}}
+        r = rng.random()
+        if r < 0.35:
+            g1['catches'] = [{'steps': [{'id': 'c9', 'acts': [irq('a9', 'k9')]}]}]           # catch-all with steps
+        elif r < 0.6:
+            g1['catches'] = [{'on': 'e1', 'steps': [{'id': 'c9', 'acts': [irq('a9', 'k9')]}]}]
+        elif r < 0.7:
+            g1['catches'] = [{'steps': []}]
+        acts = [g1] + ([irq('a2', 'k2b')] if rng.random() < 0.6 else [])
+        wf = {'id': 'm1', 'steps': [{'id': 's1', 'acts': acts}, {'id': 's2', 'acts': [irq('a4', 'k4')]}, {'id': 's3', 'acts': [{'id': 'a5', 'uses': MSG, 'key': 'm5'}]}]}
+        ops = [{'op': 'start', 'mid': 'm1', 'vars': {'pid': 'p1'}}, {'op': 'quiesce'}, {'op': 'snapshot', 'level': 'rows'}]
+        close = rng.choice(['skip', 'skip', 'submit', 'remove', 'next', 'back', 'abort', 'error'])
+        ops += [{'op': 'act', 'target': {'pid': 'p1', 'nid': 'g1', 'state': 'running', 'occ': 0}, 'action': close,
+                 'options': {'to': 's1'} if close == 'back' else {'ecode': 'e1', 'message': 'x'} if close == 'error' else {}},
+                {'op': 'quiesce'}, {'op': 'snapshot', 'level': 'rows'}]
+        # the acts that were open below it when it was closed
+        for _ in range(rng.randint(1, 3)):
+            a_ = rng.choice(['next', 'next', 'error', 'error', 'skip', 'submit', 'abort'])
+            ops += [{'op': 'act', 'target': {'pid': 'p1', 'key': rng.choice(['k1', 'k1', 'k2']), 'state': 'interrupted', 'occ': rng.choice([0, -1])}, 'action': a_,
+                     'options': {'ecode': rng.choice(['e1', 'e1', 'e9']), 'message': 'x'} if a_ == 'error' else {}}, {'op': 'quiesce'}, {'op': 'snapshot', 'level': 'rows'}]
+            if rng.random() < 0.5:
+                # ... and the closed composite is answered once more
+                a2 = rng.choice(['next', 'submit', 'skip', 'remove', 'error'])
+                ops += [{'op': 'act', 'target': {'pid': 'p1', 'nid': 'g1', 'occ': 0}, 'action': a2, 'options': {'ecode': 'e1', 'message': 'x'} if a2 == 'error' else {}}, {'op': 'quiesce'}, {'op': 'snapshot', 'level': 'rows'}]
+        ops += [{'op': 'run'}, {'op': 'snapshot', 'level': 'rows'}, {'op': 'quiesce'}]
+        rt = rng.choice([{'flavor': 'current'}, {'flavor': 'current'}, {'flavor': 'multi', 'workers': 2, 'chaos': {'max_yields': 2, 'seed': rng.randrange(1, 1 << 40)}}])
+        sc = {'id': '', 'family': 'actions', 'sched': 'composite-' + form + '-' + rt['flavor'], 'seed': rng.randrange(1 << 30), 'runtime': rt, 'engine': {'store': 'mem', 'keep_processes': True},
+              'models': [json.dumps(wf)], 'responder': {'mode': 'quiescent', 'rules': [{'match': {'key': 'k1'}, 'action': 'none', 'times': 100}, {'match': {'key': 'k2'}, 'action': 'none', 'times': 100}, {'match': {'uses': IRQ}, 'action': 'next', 'times': 100}]}, 'ops': ops}
+        return {'scenarios': [sc], 'meta': {'wf': wf, 'kind': 'composite', 'sub': 'composite', 'close': close}, 'digest': digest([wf, ops]), 'nontrivial': True}
 
     def gen_duel(self, rng, idx, opts):
         """different terminal actions racing on acts of sibling branches / the same act (C02/C03 hostile workload)"""
